@@ -5,7 +5,7 @@ CONSTANTS
   NBuf = 2
   Stations <- SmGwStations
   ArpSrcs <- SmGwArpSrcs
-  Targets <- SmTargets
+  Targets <- SmGwTargets
   ArpTimeout = 10
   BufTime = 5
   ArpGap = 4
